@@ -433,6 +433,25 @@ def task_field_ids(ctx: Ctx, which: str, part: int, parts: int) -> None:
             ctx.case("fault", {"file": which, "edits": [["ins", fstart, data[fstart + j]] for j in range(min(2, n))]})
 
 
+def task_rule_collide(ctx: Ctx, which: str, part: int, parts: int) -> None:
+    """Deterministic sweep over the yearly rules of every zone with a recurring tail: one rule's month is overwritten
+    with the other rule's month (when day / weekday / time agree the two recurrences then fire at the same instants -
+    a stream that still loads and only fails when that zone is built)."""
+    data = raw(which)
+    db = c06.ref_db(which)
+    zs = [z for z in sorted(db.zones.values(), key=lambda z: z.id) if z.tail is not None]
+    for i, z in enumerate(zs):
+        if i % parts != part or ctx.should_abort():
+            continue
+        pos = [p for p, k in z.marks if k == "rule-month"]
+        if len(pos) != 2:
+            continue
+        a, b = pos
+        if data[a] != data[b]:
+            ctx.case("fault", {"file": which, "edits": [["sub", a, data[b]]]})
+            ctx.case("fault", {"file": which, "edits": [["sub", b, data[a]]]})
+
+
 def task_hyp(ctx: Ctx, which: str, shard: int, n: int) -> None:
     s = sub_seed(ctx.seed, "c20", which, shard)
     marks, _ = structure(which)
@@ -475,6 +494,8 @@ def tasks(tier: str, seed: int) -> list[Task]:
         parts = 8 if not thorough else 16
         for j in range(parts):
             out.append(Task("task_structural_subs", {"which": which, "part": j + (0 if thorough else 0), "parts": parts * (1 if thorough else 20), "per_pos": 3 if thorough else 1}, f"subs-{which}-{j}"))
+        for j in range(2):
+            out.append(Task("task_rule_collide", {"which": which, "part": j, "parts": 2}, f"rule-collide-{which}-{j}"))
         for j in range(2):
             out.append(Task("task_field_ids", {"which": which, "part": j, "parts": 2}, f"field-ids-{which}-{j}"))
         for j in range(4):
